@@ -136,6 +136,11 @@ func prefill(v reflect.Value, t *TypeD) {
 			if f.T.K == "struct" && v.Field(i).Kind() == reflect.Struct {
 				prefill(v.Field(i), f.T)
 			}
+			// a tagged slice field that already holds something (a re-used target): afterwards it must hold one
+			// element per selected node, not the old content plus the new
+			if fv := v.Field(i); f.T.K == "slice" && fv.Kind() == reflect.Slice && fv.CanSet() {
+				fv.Set(reflect.MakeSlice(fv.Type(), 1, 4))
+			}
 			continue
 		}
 		fv := v.Field(i)
